@@ -729,6 +729,9 @@ func c16Run(c *core.Ctx) {
 }
 
 func c16Replay(c *core.Ctx, payload json.RawMessage) {
+	if c16InvocationsReplay(c, payload) || c16RepoReplay(c, payload) {
+		return
+	}
 	var np struct {
 		Family                     string `json:"family"`
 		Outer, Block, Inner, Probe int
